@@ -1,6 +1,6 @@
 @unit cw20enum
 @shim core.rs cw_utils.rs std_more.rs cw2.rs range.rs
-@properties C19 C20
+@properties C19 C20 C01 C02 C13
 
 @struct packages/cw20/src/query.rs AllowanceResponse [default: AllowanceResponse { allowance: Uint128(0), expires: Expiration::Never {} }]
 @struct packages/cw20/src/query.rs AllowanceInfo
@@ -20,7 +20,7 @@ impl SerT for AllowanceResponse { uninterp spec fn ser(self) -> Seq<u8>; uninter
 pub open spec fn cursor_of(start_after: Option<String>) -> Option<Seq<u8>> { match start_after { Some(s) => Some(utf8(s@)), None => None } }
 
 @fn contracts/cw20-base/src/enumerable.rs query_owner_allowances [closures: 3]
-@ensures C20.owner_allowances_page C19
+@ensures C20.owner_allowances_page C19 C02
     r is Ok ==> ({
         let pg = page(listing(deps.storage.view(), "allowance"@, utf8(owner@), true), cursor_of(start_after), limit);
         r->Ok_0.allowances@.len() == pg.len() && forall|i: int| 0 <= i < pg.len() ==> utf8((#[trigger] r->Ok_0.allowances@[i]).spender@) == pg[i].0
@@ -44,7 +44,7 @@ pub open spec fn cursor_of(start_after: Option<String>) -> Option<Seq<u8>> { mat
 @end
 
 @fn contracts/cw20-base/src/enumerable.rs query_spender_allowances [closures: 3]
-@ensures C20.spender_allowances_page C19
+@ensures C20.spender_allowances_page C19 C02
     r is Ok ==> ({
         let pg = page(listing(deps.storage.view(), "allowance_spender"@, utf8(spender@), true), cursor_of(start_after), limit);
         r->Ok_0.allowances@.len() == pg.len() && forall|i: int| 0 <= i < pg.len() ==> utf8((#[trigger] r->Ok_0.allowances@[i]).owner@) == pg[i].0
@@ -68,7 +68,7 @@ pub open spec fn cursor_of(start_after: Option<String>) -> Option<Seq<u8>> { mat
 @end
 
 @fn contracts/cw20-base/src/enumerable.rs query_all_accounts [closures: 2]
-@ensures C20.all_accounts_page
+@ensures C20.all_accounts_page C01
     r is Ok ==> ({
         let pg = page(listing(deps.storage.view(), "balance"@, Seq::<u8>::empty(), false), cursor_of(start_after), limit);
         r->Ok_0.accounts@.len() == pg.len() && forall|i: int| 0 <= i < pg.len() ==> utf8((#[trigger] r->Ok_0.accounts@[i])@) == pg[i].0
@@ -134,9 +134,9 @@ pub open spec fn typed_data(data: Seq<((Addr, Addr), AllowanceResponse)>, l: Seq
 @requires
     pre_0_14(old(deps.storage).view()) ==> no_spender_entries(old(deps.storage).view()),
     !pre_0_14(old(deps.storage).view()) ==> inv_mirror(old(deps.storage).view())
-@ensures C19.migrate_builds_spender_view
+@ensures C19.migrate_builds_spender_view C02
     r is Ok ==> inv_mirror(final(deps.storage).view())
-@ensures C19.migrate_keeps_owner_view C01 C13
+@ensures C19.migrate_keeps_owner_view C01 C13 C02
     r is Ok ==> forall|k: Seq<u8>| unpath(k).0 != "allowance_spender"@ && k != cw2_key() ==> #[trigger] kv2(final(deps.storage).view(), k) == kv2(old(deps.storage).view(), k)
 @loop 1 C19.migrate_loop
     invariant
